@@ -17,6 +17,7 @@ rnd = int(os.environ.get("SEED_ROUND", "1"))
 wt = f"/tmp/wt_{pid}" if rnd == 1 else f"/tmp/wt{rnd}_{pid}"
 src = f"{wt}/_seed"
 dst = f"/verif/seeded/{pid}-{int(k) + 2 * (rnd - 1)}"
+# (round 3 seeds are numbered 5 and 6)
 os.makedirs(dst, exist_ok=True)
 patch = f"{src}/change{k}.diff"
 demo = f"{src}/demo{k}.py"
